@@ -130,6 +130,9 @@ def nistOps : Dispatcher := fun op args =>
         "univp=" ++ fmtOptN (universalLPinned n)])
   | "nist.excursionpi", [x, mc] => do
       let x ← parseNat? x; let mc ← parseNat? mc; pure (fmtNistPairs (excursionPi x mc))
+  | "nist.rankdist", [r, c, k] => do
+      let r ← parseNat? r; let c ← parseNat? c; let k ← parseNat? k
+      pure (",".intercalate ((rankDistribution r c k).map (fun q => hexInt q.num ++ ":" ++ hexNat q.den)))
   | "nist.lfsrcount", [n, m] => do
       let n ← parseNat? n; let m ← parseNat? m; pure (hexNat (lfsrCount n m))
   | "nist.templates", [m] => do
